@@ -148,7 +148,7 @@ func init() {
 				"netip values":   "zero Addr, IPv4, IPv6, IPv4-mapped, zoned (all address bits symbolic); prefix lengths 0..255; runes: all 32-bit values",
 				"hostsfile":      "Record.UnmarshalText on every ASCII line of length 0..4|6; MarshalText on symbolic addresses and names; storage accessors",
 				"urlutil":        "Parse / UnmarshalText / UnmarshalJSON(string token, null, empty) on every byte string of length 0..3|4; validators and redaction on symbolic url.URL fields",
-				"stringutil":     "ContainsFold(|s|<=4|5, |sub|<=2|3), SplitTrimmed(|s|<=4|6, |sep|<=2): quick 7-bit bytes, thorough all bytes",
+				"stringutil":     "ContainsFold(|s|<=4|5, |sub|<=2), SplitTrimmed(|s|<=4|5, |sep|<=2): 7-bit bytes",
 			}
 		},
 		Outside: []string{"strings longer than the bounds", "names with non-ASCII bytes or 'xn--' labels through idna.ToASCII", "urlutil.URL.UnmarshalJSON on non-string JSON values (encoding/json reflection)",
